@@ -149,6 +149,64 @@ pub fn corr(tier: &str, seed: u64, c: &mut Corr) {
             &ans,
         );
     }
+    // ---- the image route: fit_view_box + aligned_pos + the stored view box (image.rs convert_inner), for an SVG
+    // image of a given size in an element rect, every alignment with meet and slice
+    for i in 0..n {
+        let al = ALIGNS[(i * 3 + 1) % 10];
+        let slice = (i / 10) % 2 == 0;
+        let (x, y) = (gen_len(&mut rng, false), gen_len(&mut rng, false));
+        let (w, h) = (gen_len(&mut rng, true), gen_len(&mut rng, true));
+        let (aw, ah) = (gen_len(&mut rng, true), gen_len(&mut rng, true));
+        let par = if al == "none" { "none".to_string() } else { format!("{} {}", al, if slice { "slice" } else { "meet" }) };
+        let inner = format!(r#"<svg xmlns="http://www.w3.org/2000/svg" width="{}" height="{}"><rect width="1" height="1"/></svg>"#, aw.text, ah.text);
+        let svg = format!(
+            r#"<svg xmlns="http://www.w3.org/2000/svg" xmlns:xlink="http://www.w3.org/1999/xlink" width="300" height="300"><image x="{}" y="{}" width="{}" height="{}" preserveAspectRatio="{}" xlink:href="data:image/svg+xml;base64,{}"/></svg>"#,
+            x.text, y.text, w.text, h.text, par, b64(inner.as_bytes())
+        );
+        let tree = match usvg::Tree::from_str(&svg, &opts(96.0, 100.0, 100.0)) {
+            Ok(t) => t,
+            Err(_) => continue,
+        };
+        // the image, and the transforms of the groups above it
+        fn find_image(g: &usvg::Group, ts: &mut Vec<usvg::Transform>) -> Option<(f32, f32)> {
+            for n in g.children() {
+                match n {
+                    usvg::Node::Image(im) => return Some((im.size().width(), im.size().height())),
+                    usvg::Node::Group(c) => {
+                        let before = ts.len();
+                        if !c.transform().is_identity() {
+                            ts.push(c.transform());
+                        }
+                        if let Some(s) = find_image(c, ts) {
+                            return Some(s);
+                        }
+                        ts.truncate(before);
+                    }
+                    _ => {}
+                }
+            }
+            None
+        }
+        let mut ts = vec![];
+        let ans = match find_image(tree.root(), &mut ts) {
+            None => "none".to_string(),
+            Some((iw, ih)) => {
+                // the nested tree's size is the image size the converter used
+                if iw.to_bits() != aw.f32v.to_bits() || ih.to_bits() != ah.f32v.to_bits() {
+                    continue;
+                }
+                match ts.len() {
+                    0 => IDENT.to_string(),
+                    1 => ts_bits(ts[0]),
+                    k => format!("unexpected-{}-transforms", k),
+                }
+            }
+        };
+        c.emit(
+            &format!("imagefit {} {} {} {} {} {} {} {}", al, if slice { "slice" } else { "meet" }, hx(x.f32v), hx(y.f32v), hx(w.f32v), hx(h.f32v), hx(aw.f32v), hx(ah.f32v)),
+            &ans,
+        );
+    }
     // ---- root size resolution
     let units = [("", "none"), ("px", "px"), ("in", "in"), ("cm", "cm"), ("mm", "mm"), ("pt", "pt"), ("pc", "pc"), ("%", "percent"), ("em", "em"), ("ex", "ex")];
     let dpis = [96.0f32, 72.0, 300.0, 10.0, 4000.0, 90.0, 123.0];
